@@ -107,3 +107,80 @@ func c16OperandListScenario(x *mc.X) *mc.Outcome {
 	}
 	return out
 }
+
+// Names handed to Pick / Omit that are not keys of the base (another letter case of a key, a key with a blank,
+// an unrelated name, the empty name) select nothing: the derived schema is the one derived without them.
+func c16ForeignNamesScenario(x *mc.X) *mc.Outcome {
+	zh.Reset()
+	zh.Install(x, zh.PoolLIFO, zh.OrderSorted)
+	// Omit only: Pick of a name that is not a key stores a nil entry under that name and the derived schema panics
+	// when used — the statement does not say what the selection is for such a name (treated as misconfiguration,
+	// see DESIGN A.4), so only Omit, whose documented selection is unambiguous, is checked
+	op := 1 + x.Choose(1, "operation") // 1 Omit
+	form := x.Choose(2, "form")        // 0 names, 1 map[string]bool
+	foreign := []string{"A", "B", "Name", "a ", " a", "zzz", "", "AB", "aB"}[x.Choose(9, "foreign name")]
+	withKey := x.Bool("together with the key b")
+	type dest struct {
+		A, AB, Name string
+		B           int
+	}
+	base := func() *z.StructSchema {
+		return z.Struct(z.Schema{"a": z.String().Min(3), "b": z.Int().GT(5), "name": z.String().Required(), "aB": z.String().Min(2)})
+	}
+	if foreign == "aB" {
+		foreign = "ab" // "aB" is a key; its all-lower-case spelling is not
+	}
+	derive := func(names []string) *z.StructSchema {
+		b := base()
+		var args []any
+		if form == 0 {
+			for _, n := range names {
+				args = append(args, n)
+			}
+		} else {
+			m := map[string]bool{}
+			for _, n := range names {
+				m[n] = true
+			}
+			args = append(args, m)
+		}
+		if op == 0 {
+			return b.Pick(args...)
+		}
+		return b.Omit(args...)
+	}
+	inputs := []map[string]any{
+		{"a": "abcd", "b": 9, "name": "n", "aB": "xy"},
+		{"a": "ab", "b": 1, "aB": "x"},
+		{},
+	}
+	behave := func(s *z.StructSchema) (out []string) {
+		defer func() {
+			if r := recover(); r != nil {
+				out = append(out, "PANIC "+firstLine(fmt.Sprint(r)))
+			}
+		}()
+		for _, in := range inputs {
+			var d dest
+			m := s.Parse(in, &d)
+			out = append(out, fmt.Sprintf("%+v %v", d, obsFromMap(m).IssueStrings()))
+		}
+		return out
+	}
+	var with, without []string
+	if withKey {
+		with, without = []string{foreign, "b"}, []string{"b"}
+	} else {
+		with, without = []string{foreign}, nil
+	}
+	got, want := behave(derive(with)), behave(derive(without))
+	zh.Reset()
+	name := []string{"Pick", "Omit"}[op]
+	out := &mc.Outcome{Traces: 2, Nontrivial: true, Sig: fmt.Sprintf("foreign|%d|%d|%q|%v", op, form, foreign, withKey)}
+	out.Sample = map[string]any{"operation": name, "form": form, "foreign_name": foreign, "with_key_b": withKey, "behaviour": want}
+	if !eqStrings(got, want) {
+		x.Note("base Struct{a, b, name, aB}; %s(%q%s) given as %s", name, foreign, map[bool]string{true: `, "b"`, false: ""}[withKey], []string{"names", "map[string]bool"}[form])
+		out.Viol = append(out.Viol, &mc.Violation{Key: "C16:foreign-name:" + name, What: "a name that is not a key of the base changed what " + name + " selects", Expected: fmt.Sprint(want), Observed: fmt.Sprint(got)})
+	}
+	return out
+}
